@@ -377,7 +377,10 @@ fn ops(rng: &mut Rng, max: u64, in_loop: bool) -> Vec<Op1> { (0..rng.below(max +
 pub fn loop_body(rng: &mut Rng, max: u64, allow_nested: bool) -> Vec<Op1> {
     let mut b = ops(rng, max, true);
     if allow_nested && rng.chance(1, 4) {
-        let inner = ops(rng, 2, true);
+        let mut inner = ops(rng, 2, true);
+        // half of the nested bodies read the loop state they see (so that a state left over from
+        // the previous outer round, or a stale one, changes the result)
+        if rng.chance(1, 2) { let at = rng.below(inner.len() as u64 + 1) as usize; inner.insert(at, Op1::AddState); }
         let pos = rng.below(b.len() as u64 + 1) as usize;
         let (n, lim) = (rng.range(1, 3), *rng.pick(&[40i64, 1_000_000_000]));
         // one nested loop in four reads the ENCLOSING loop's state in its body
